@@ -80,6 +80,34 @@ cases.append(("C-GET: Pending, C-STORE request, Pending, Warning with identifier
               [(1, rsp_get(0xFF00)), (1, C_STORE()), (1, rsp_get(0xFF00)), (1, rsp_get(0xB000, good))], 3))
 cases.append(("C-MOVE: Failure with undecodable identifier (deflated)", "get", DeflatedExplicitVRLittleEndian,
               [(1, rsp_get(0xA701, garbage, C_MOVE))], 1))
+# an identifier pydicom only finds undecodable when its values are read (lazy conversion): (0008,1161) has VR UL in the
+# dictionary used for Implicit VR, the peer sends a 2-byte value; pynetdicom reads it when logging the identifier
+_lazy = Dataset()
+_lazy.PatientID = "X"
+from pydicom.dataelem import DataElement  # noqa: E402
+_lazy[0x00081161] = DataElement(0x00081161, "OB", b"\x01\x00")
+lazy_bad = encode(_lazy, True, True)
+
+
+def usable(x):
+    """a surfaced identifier must be None or a dataset the caller can actually read"""
+    if x is None:
+        return True
+    try:
+        str(x)
+        return True
+    except Exception:
+        return False
+
+
+cases.append(("C-FIND: Pending with an identifier whose element value cannot be converted (found while logging)", "find", ImplicitVRLittleEndian,
+              [(1, rsp_find(0xFF00, lazy_bad)), (1, rsp_find(0x0000))], 2))
+cases.append(("C-GET: Failure with an identifier whose element value cannot be converted (found while logging)", "get", ImplicitVRLittleEndian,
+              [(1, rsp_get(0xA701, lazy_bad))], 1))
+import logging  # noqa: E402
+logging.getLogger("pynetdicom").setLevel(logging.DEBUG)
+logging.getLogger("pynetdicom").addHandler(logging.NullHandler())
+logging.getLogger("pynetdicom").propagate = False
 for desc, which, ts, script, want in cases:
     a, log = mk_assoc(script)
     gen = a._wrap_find_responses(ts, QM) if which == "find" else a._wrap_get_move_responses(ts)
@@ -93,8 +121,10 @@ for desc, which, ts, script, want in cases:
         err = None
     except Exception as e:
         err = e
-    if err is not None or len(items) != want or any(depths) or a._lk.depth != 0:
-        bad = dict(input=desc, observed={"items": len(items), "lock depth at each yield": depths, "exception": repr(err), "log": log},
+    broken = [i for i, x in enumerate(items) if not usable(x[1])]
+    if err is not None or len(items) != want or any(depths) or a._lk.depth != 0 or broken:
+        bad = dict(input=desc, observed={"items": len(items), "lock depth at each yield": depths, "exception": repr(err), "log": log,
+                                         "items whose identifier raises when read": broken},
                    expected={"items": want, "lock depth at each yield": [0] * want})
         break
 if bad:
